@@ -31,6 +31,7 @@ class Contract:
     stmt: str = ''                   # statement contract: name assigned inside the function
     stmt_like: str = ''              # shape of the statement's right-hand side (names may be renamed)
     block: tuple = ()                # block contract: (first assigned name, last assigned name)
+    block_like: str = ''             # shape of the first statement's right-hand side (renamed locals)
     custom: object = None            # callable(verifier, contract, fdef, consts) -> obligations
     tag: str = ''                    # distinguishes several contracts on one function
     relate: dict = None              # relational (two-run) contract: {'extra': {name: spec}, 'second': {param: CL}}
